@@ -171,8 +171,31 @@ impl Prop for Interpolation {
         } else {
             let base = gen_voice(t, GenOpts { max_depth: 3, ..GenOpts::default() });
             let mut v = vec![base.clone()];
+            // one generated family in seven: the other voices differ from the base in the voicing
+            // weights ONLY (same trees, means and variances)
+            let msd_only = !identical && t.chance(0.15);
             for _ in 1..n {
-                v.push(if identical { base.clone() } else { variant_voice(t, &base) });
+                v.push(if identical {
+                    base.clone()
+                } else if msd_only {
+                    let mut o = base.clone();
+                    for s in o.streams.iter_mut().filter(|s| s.is_msd) {
+                        for tree in s.model.trees.iter_mut() {
+                            for p in tree.pdfs.iter_mut() {
+                                if let Some(w) = p.last_mut() {
+                                    *w = match t.below(4) {
+                                        0 => 1.0 - *w,
+                                        1 => 0.0,
+                                        _ => t.unit() as f32,
+                                    };
+                                }
+                            }
+                        }
+                    }
+                    o
+                } else {
+                    variant_voice(t, &base)
+                });
             }
             Family::Generated(v)
         };
